@@ -2,7 +2,7 @@
     every persisted status change against (clause (15,_)); these theorems show they say what
     the property says. *)
 From Coq Require Import List ZArith Bool Arith.
-From FF Require Import Sx StoreModel StoreCheck PreCheck EngineMon LifeCycleFacts TaskRun TaskRunFacts EngineCore EngineCoreFacts.
+From FF Require Import Sx StoreModel StoreCheck PreCheck EngineMon LifeCycleFacts TaskRun TaskRunFacts Engine EngineFacts.
 Import ListNotations.
 Local Open Scope Z_scope.
 
@@ -43,26 +43,29 @@ Theorem C15_run_ending_after_run_ok : forall p e,
 Proof. exact into_NeedEnding. Qed.
 Print Assumptions C15_run_ending_after_run_ok.
 
-(** --- engine level (EngineCore: parser knowledge, executor runs and persisted statuses of one instance as a
-    transition system; scope: failures, retry command, crash/restart, watchdog failing a dead run).  The
-    statements hold for every history in which no delivery is accepted with a stale snapshot
-    ([validate = true]); the code as it is admits such a delivery after a retry command re-initialised the
-    instance, and then every one of them fails ([..._unvalidated_refuted]; known finding F-dup-push,
-    reproduced on the real code).  Journals of the real engine in this scope are checked to be histories of
-    EngineCore ([EngineCoreCheck.check_core]) and the hypothesis is monitored on them. --- *)
+(** --- engine level (Engine: persisted task and instance statuses, the parser's tree and event queue, the
+    executor's registered runs and the deliveries under way, the retry command in its phases, crash and
+    restart, the watchdog - one instance as a transition system at the granularity of single store writes
+    and goroutine hand-overs; scope: tasks without pre-checks, failures in every phase, retry commands
+    also while the instance is busy, no-op commands).  The statements hold for every history in which no
+    delivery is accepted with a stale snapshot ([validate = true], the other switches arbitrary); the code
+    as it is admits such a delivery after a retry command re-initialised a busy instance, and then every
+    one of them fails ([..._unvalidated_refuted]; known finding F-dup-push, reproduced on the real code).
+    Journals of the real engine in this scope are checked to be histories of Engine
+    ([EngineCheck.check_core]) and the hypothesis is monitored on them. --- *)
 
-Theorem C15_engine_success_final : forall tasks deps ls s l s' t,
-  run tasks deps true boot ls = Some s -> step tasks deps true s l = Some s' ->
-  EngineCore.store s t = SSuccess -> EngineCore.store s' t = SSuccess.
+Theorem C15_engine_success_final : forall tasks deps cq nn ls s l s' t,
+  run tasks deps true cq nn boot ls = Some s -> step tasks deps true cq nn s l = Some s' ->
+  Engine.store s t = SSuccess -> Engine.store s' t = SSuccess.
 Proof.
-  intros tasks deps ls s l s' t Hr Hs.
-  exact (success_final tasks deps s l s' t (inv_reach tasks deps ls boot s (inv_boot deps) Hr) Hs).
+  intros tasks deps cq nn ls s l s' t Hr Hs.
+  exact (success_final tasks deps cq nn s l s' t (inv_reach tasks deps cq nn ls boot s (inv_boot deps) Hr) Hs).
 Qed.
 Print Assumptions C15_engine_success_final.
 
 Theorem C15_engine_unvalidated_refuted :
-  exists s s', run [1; 2; 3]%Z deps3 false boot (firstn 15 witness_dup) = Some s /\
-               step [1; 2; 3]%Z deps3 false s (StartWrite 2) = Some s' /\
-               EngineCore.store s 2 = SSuccess /\ EngineCore.store s' 2 = SRunning.
+  exists s s', run [1; 2; 3]%Z deps3 false false true boot (firstn 20 witness_dup) = Some s /\
+               step [1; 2; 3]%Z deps3 false false true s (StartWrite 2) = Some s' /\
+               Engine.store s 2 = SSuccess /\ Engine.store s' 2 = SRunning.
 Proof. exact success_overwritten_refuted. Qed.
 Print Assumptions C15_engine_unvalidated_refuted.
